@@ -37,6 +37,9 @@ pub fn judge_with(c: &Case, id: &str, make: &dyn Fn(&Prog, &RawCmd) -> Cmd) -> O
             return obs;
         }
     };
+    if let Some(l) = proggen::fit_label(&c.spec) {
+        obs.label(l);
+    }
     let mut cmds: Vec<Cmd> = c.cmds.iter().map(|r| make(&p, r)).collect();
     cmds.push(Cmd::Exit);
     let aliases: Vec<u8> = c.cmds.iter().map(|r| r.alias).collect();
@@ -173,8 +176,8 @@ pub fn cases(max_cmds: usize) -> impl Strategy<Value = Case> {
         }),
         6..24,
     );
-    let spec = prop_oneof![5 => proggen::prog_spec(24).boxed(), 1 => proggen::raw_image_spec(super::c03::image_words()).boxed()];
-    (spec, prop_oneof![3 => mixed, 2 => steppy, 1 => churn], input_bytes()).prop_map(|(spec, cmds, input)| Case { spec, cmds, input })
+    let spec = crate::pick![5 => proggen::prog_spec(24).boxed(), 1 => proggen::raw_image_spec(super::c03::image_words()).boxed()];
+    (spec, crate::pick![3 => mixed, 2 => steppy, 1 => churn], input_bytes()).prop_map(|(spec, cmds, input)| Case { spec, cmds, input })
 }
 
 impl Prop for C10 {
@@ -196,6 +199,9 @@ impl Prop for C10 {
     fn run_worker(&self, ctx: &Ctx, rep: &mut Report) {
         let n = ctx.share(ctx.tier.pick(30_000, 300_000));
         drive(ctx, rep, "histories", cases(13), n, &mut |c: &Case| judge_case(c));
+    }
+    fn fuzz_strategy(&self) -> Option<BoxedStrategy<Value>> {
+        Some(crate::fuzzmode::jv(cases(13)))
     }
     fn replay(&self, _ctx: &Ctx, case: &Value) -> Obs {
         match serde_json::from_value::<Case>(case.clone()) {
